@@ -945,6 +945,7 @@ static void do_start(int h)
   char flags[128] = "";
   int argvnull = 0, usewd = 0, rfile = 0, rpath = 0, want_ident = 0, nofile = 0, hlow = 0;
   const char *inchild = NULL;
+  long bigarg = 0;  // bigarg=N: one argument of N bytes (beyond MAX_ARG_STRLEN the kernel refuses the exec with E2BIG)
   int selffd[3] = { -1, -1, -1 };  // h<stream>fd=N: the caller passes its own descriptor N as the handle (1>&2 style)
   const char *runex = NULL, *argvx = NULL, *envx = NULL, *wdx = NULL, *progx = NULL;
   const char *pathmode = NULL, *handlemode = NULL;
@@ -1003,6 +1004,7 @@ static void do_start(int h)
     else if ((v = kv(t, "pathmode"))) pathmode = v;
     else if ((v = kv(t, "handlemode"))) handlemode = v;
     else if ((v = kv(t, "inchild"))) inchild = v;
+    else if ((v = kv(t, "bigarg"))) bigarg = atol(v);
     else if ((v = kv(t, "hinfd"))) selffd[0] = atoi(v);
     else if ((v = kv(t, "houtfd"))) selffd[1] = atoi(v);
     else if ((v = kv(t, "herrfd"))) selffd[2] = atoi(v);
@@ -1132,6 +1134,16 @@ static void do_start(int h)
     argv = (const char **) v;
   }
   if (envx) o.env.extra = (const char *const *) unhex_list(envx, 0, NULL);
+  static const char *argv_big[3];
+  if (bigarg > 0) {
+    char *b = malloc((size_t) bigarg + 1);
+    memset(b, 'a', (size_t) bigarg);
+    b[bigarg] = 0;
+    argv_big[0] = progpath;
+    argv_big[1] = b;
+    argv_big[2] = NULL;
+    argv = argv_big;
+  }
 
   c->want_ident = want_ident;
   if (runex) {
